@@ -105,6 +105,18 @@ def rankedMask (ord : List Row → List Row) (pts : List Vec) (req : Int) : List
     let sel := rankedIdx ord pts req.toNat
     (List.range n).map (fun i => sel.contains i)
 
+/-- Specification of the peeling: the successive fronts of `rem`; front `k+1` is the
+non-dominated set of what remains after fronts `1..k` were removed (listed in the order of
+the caller's array, as `map_indices[nds]` does). -/
+def fronts (ord : List Row → List Row) : Nat → List Row → List (List Nat)
+  | 0, _ => []
+  | fuel + 1, rem =>
+    if rem.isEmpty then []
+    else
+      let nds := ndsRows ord rem
+      (rem.filter (fun r => nds.contains r.1)).map (·.1) ::
+        fronts ord fuel (rem.filter (fun r => !nds.contains r.1))
+
 /-! ### executable specification (verified checker) -/
 
 /-- strict Pareto dominance under minimisation -/
